@@ -96,11 +96,21 @@ func genXML(t *tape.Tape, o GenOpts) *World {
 	gn := fieldNames("G", sh.NItemFields)
 	useAttr := t.Bool("xml.attr")
 	rootAttrs := ""
+	var xmlWritten map[string]string // xpath name -> element name as written
 	if t.Chance("xml.ns", 1, 3) {
 		// namespace-prefixed elements (xpath addresses them by prefix)
 		rootAttrs = ` xmlns:p="uri://verif/p"`
+		xp, wp := "p:", "p:" // prefix as seen by xpath / as written in the document
+		if t.Chance("xml.ns.dual", 1, 3) {
+			// two prefixes bound to one URI: the reader reports the prefix declared last
+			rootAttrs += ` xmlns:q="uri://verif/p"`
+			xp = "q:"
+			w.SetTag("xml.two-prefixes-one-uri", "1")
+		}
+		xmlWritten = map[string]string{}
 		for i := 2; i < len(fn); i++ {
-			fn[i] = "p:" + fn[i]
+			xmlWritten[xp+fn[i]] = wp + fn[i]
+			fn[i] = xp + fn[i]
 		}
 		w.SetTag("xml.namespaces", "1")
 	}
@@ -136,7 +146,11 @@ func genXML(t *tape.Tape, o GenOpts) *World {
 				reps = 2
 			}
 			for k := 0; k < reps; k++ {
-				sb.WriteString("<" + fn[i] + ">" + xmlEsc.Replace(v) + "</" + fn[i] + ">")
+				el := fn[i]
+				if wname, ok := xmlWritten[el]; ok {
+					el = wname
+				}
+				sb.WriteString("<" + el + ">" + xmlEsc.Replace(v) + "</" + el + ">")
 			}
 		}
 		for _, it := range r.Items {
